@@ -133,6 +133,8 @@ def cases(tier):
             for s in syntaxes:
                 yield {'form': 'call', 'kinds': [kind], 'truth': [truth],
                        'else': 0, 'reref': None, 'syntax': s}
+    yield {'form': 'special'}
+    yield {'form': 'late'}
     # sibling conditionals / calls testing the same name: each one has its
     # own cache, so each evaluates the name again (once)
     sib = ('if', 'ifelse', 'unless', 'call', 'ifvar')
@@ -145,6 +147,93 @@ def cases(tier):
                                'kinds': ['name'], 'truth': [truth],
                                'else': 0, 'reref': None, 'nest': nest,
                                'syntax': s}
+
+
+class _Falsy:
+    def __bool__(self):
+        return False
+
+
+class _Ob:
+    pass
+
+
+def special_values():
+    import zExceptions
+    return [('notfound', zExceptions.NotFound('gone'), True),
+            ('unauthorized', zExceptions.Unauthorized('u'), True),
+            ('redirect', zExceptions.Redirect('http://x/'), True),
+            ('excinst', ValueError('x'), True),
+            ('zero-float', 0.0, False), ('text-zero', '0', True),
+            ('empty-list', [], False), ('list', [0], True),
+            ('empty-dict', {}, False), ('none', None, False),
+            ('falsy-object', _Falsy(), False), ('object', _Ob(), True),
+            ('bytes', b'x', True), ('empty-bytes', b'', False),
+            ('empty-tuple', (), False)]
+
+
+SPECIAL_SRC = ('<dtml-if v>T<dtml-else>F</dtml-if>|<dtml-unless v>U'
+               '</dtml-unless>|<dtml-if nope>x<dtml-elif v>E</dtml-if>|'
+               '<dtml-call v>|<dtml-if v><dtml-if v>TT</dtml-if></dtml-if>')
+LATE_SRC = ('%s<dtml-if late>A<dtml-else>a</dtml-if><dtml-unless late>u'
+            '</dtml-unless><dtml-call set><dtml-if late>B<dtml-else>b'
+            '</dtml-if><dtml-unless late>U</dtml-unless><dtml-if nope>n'
+            '<dtml-elif late>C</dtml-if>%s')
+
+
+def run_special(res, case):
+    """values of unusual kinds as conditions; names that become defined
+    during the render (a side effect of dtml-call) count from then on"""
+    from DocumentTemplate import HTML
+    n = 0
+    if case['form'] == 'special':
+        t = HTML(SPECIAL_SRC)
+        for name, v, truth in special_values():
+            exp = 'T||E||TT' if truth else 'F|U|||'
+            for k in (1, 2):        # and again on the compiled template
+                n += 1
+                try:
+                    got = t(v=v)
+                except Exception as e:
+                    got = 'raised %r' % (e,)
+                if got != exp:
+                    res.violate('special-value', 'special:%s' % name,
+                                {'value': repr(v), 'got': got,
+                                 'expected': exp, 'source': SPECIAL_SRC})
+                    break
+    else:
+        for frame in ('client', 'with', 'in', 'with-in'):
+            ob = _Ob()
+
+            def setter(ob=ob):
+                ob.late = 'L'
+                return ''
+            ob.set = setter
+            pre, post, kw, args = '', '', {}, ()
+            if frame == 'client':
+                args = (ob,)
+            elif frame == 'with':
+                pre, post, kw = '<dtml-with o>', '</dtml-with>', {'o': ob}
+            elif frame == 'in':
+                pre, post, kw = '<dtml-in s>', '</dtml-in>', {'s': [ob]}
+            else:
+                pre, post, kw = ('<dtml-with o><dtml-in s2>',
+                                 '</dtml-in></dtml-with>',
+                                 {'o': ob, 's2': [1]})
+            n += 1
+            src = LATE_SRC % (pre, post)
+            try:
+                got = HTML(src)(*args, **kw)
+            except Exception as e:
+                got = 'raised %r' % (e,)
+            if got != 'auBC':
+                res.violate('defined-later', 'late:%s' % frame,
+                            {'source': src, 'got': got, 'expected': 'auBC'})
+    res.evals = n
+    res.nontrivial = True
+    res.traces = res.states = res.transitions = n
+    res.outcome = case['form']
+    return res
 
 
 def build(case):
@@ -202,6 +291,8 @@ def build(case):
 
 def run(case):
     res = Res()
+    if case['form'] in ('special', 'late'):
+        return run_special(res, case)
     nodes, ns = build(case)
     impl = harness.observe_impl(nodes, ns, case['syntax'])
     ref = harness.observe_ref(nodes, ns)
